@@ -18,6 +18,8 @@ def decorate(b, rng, claims=True, finality=False, storefaults=False, l2reorgs=Fa
     """add what the model abstracts away: claims per block, position of the finalized pointer, storage faults"""
     steps = []
     cfg = dict(b["cfg"])
+    # (block numbers in the fep prover's answers are the model's: consecutive numbering there)
+    idle = cfg.get("mode", "pp") != "fep" and rng.random() < 0.3
     if finality:
         # how the 5 L1 info leaves are spread over L1 blocks: several updates of the info tree can share a block
         cfg["l1shape"] = rng.choice([[1, 2, 3, 4, 5], [1, 2, 3, 4, 5], [1, 1, 2, 2, 3], [1, 2, 2, 2, 3], [1, 1, 1, 2, 2], [1, 2, 3, 3, 4]])
@@ -52,6 +54,9 @@ def decorate(b, rng, claims=True, finality=False, storefaults=False, l2reorgs=Fa
         s = dict(s)
         if s["a"] == "block":
             s["nc"] = rng.choice([0, 1, 1]) if claims else 0
+            if idle:
+                # long idle stretches of the chain: event-free blocks are never stored, the next certificate's range grows
+                s["jump"] = rng.choice([1, 1, 1, 2, 9999, 10000, 10001, 10001, 20001, 20002])
             if finality and fin < nl1 and rng.random() < 0.3:
                 fin += 1
                 steps.append(dict(a="finalize", fin=fin))
